@@ -863,4 +863,471 @@ theorem run_induct (P : St → Prop) (hstep : ∀ s l, P s → NoWrap s.ring →
 theorem run_TInv (s : St) (ls : List Label) (h : TInv s) (hw : NoWrap (run s ls).ring) : TInv (run s ls) :=
   run_induct TInv step_TInv s ls h hw
 
+/-! ### ghost logs: what was received is a subsequence of what was popped, which is a prefix of what
+was written, which is a subsequence of what the producers submitted (in lock-acquisition order) -/
+
+theorem pushStep_log (r : Ring) (v : Val) (p : PushPc) :
+    (pushStep r v p).1.outs = r.outs ∧
+    (pushStep r v p).1.log = (match p with | .write _ => r.log ++ [v] | _ => r.log) ∧
+    ((pushStep r v p).2 = .full → ∃ tl, p = .ldHead tl) ∧ ((pushStep r v p).2 = .done → ∃ tl, p = .stTail tl) ∧
+    (∀ p', (pushStep r v p).2 = .cont p' → (∃ tl, p = .write tl ∧ p' = .stTail tl) ∨
+       ((∀ tl, p ≠ .write tl) ∧ (∀ tl, p' ≠ .stTail tl))) := by
+  cases p <;> simp [pushStep, Ring.writeSlot, Ring.storeTail]
+  split <;> simp
+
+theorem popStep_outs (r : Ring) (p : PopPc) :
+    (popStep r p).1.log = r.log ∧
+    (∀ x, (popStep r p).2 = .done x → (popStep r p).1.outs = r.outs ++ [x]) ∧
+    ((∀ x, (popStep r p).2 ≠ .done x) → (popStep r p).1.outs = r.outs) := by
+  cases p <;> simp [popStep, Ring.readSlot, Ring.storeHead]
+  · split <;> simp
+  · split <;> simp
+
+
+theorem sub_snoc {α} {A B : List α} (x : α) (h : List.Sublist A B) : List.Sublist (A ++ [x]) (B ++ [x]) :=
+  List.Sublist.append h (List.Sublist.refl _)
+theorem sub_right {α} {A B : List α} (x : α) (h : List.Sublist A B) : List.Sublist A (B ++ [x]) :=
+  h.trans (List.sublist_append_left B [x])
+
+/-- what `recv` returned is a subsequence of what `pop` handed out -/
+def GInv (s : St) : Prop := List.Sublist s.recvd s.ring.outs
+
+theorem step_GInv (s : St) (l : Label) (h : GInv s) : GInv (step s l) := by
+  unfold GInv at *
+  cases l with
+  | prod i op =>
+    cases hpc : s.pp i with
+    | push c v rest p =>
+      have := (pushStep_log s.ring (i, v) p).1
+      simp only [step, stepP, hpc, St.endSample, St.beginSample, St.setP]
+      repeat' split
+      all_goals grind
+    | pop v rest p =>
+      have := popStep_outs s.ring p
+      simp only [step, stepP, hpc, St.setP]
+      repeat' split
+      all_goals grind [sub_right]
+    | _ =>
+      simp only [step, stepP, hpc, startP, St.endSample, St.beginSample, St.setP]
+      repeat' split
+      all_goals exact h
+  | cons st =>
+    cases hpc : s.cp with
+    | pop g cl p =>
+      have := popStep_outs s.ring p
+      simp only [step, stepC, hpc, St.loopTop, St.retC]
+      repeat' split
+      all_goals grind [sub_snoc]
+    | _ =>
+      simp only [step, stepC, hpc, St.loopTop, St.retC]
+      repeat' split
+      all_goals exact h
+  | stop st =>
+    simp only [step, stepS]
+    repeat' split
+    all_goals exact h
+
+theorem GInv.init (v : Variant) (cap W : Nat) : GInv (St.init v cap W 0) := by
+  simp [GInv, St.init, Ring.init]
+
+theorem run_GInv (s : St) (ls : List Label) (h : GInv s) : GInv (run s ls) := by
+  induction ls generalizing s with
+  | nil => exact h
+  | cons l ls ih => exact ih (step s l) (step_GInv s l h)
+
+/-! ### end of stream only after draining -/
+
+def Drained (s : St) : Prop := s.closed = true ∧ s.ring.hcount = s.ring.tcount
+
+structure EInv (s : St) : Prop where
+  popCl : ∀ g p, s.cp = .pop g true p → s.closed = true
+  stEnded : s.cp = .stEnded → Drained s
+  isEmpty : s.cp = .isEmpty → s.closed = true
+  stEnded2 : s.cp = .stEnded2 → Drained s
+  ended : s.ended = true → s.stopCalled = true ∨ Drained s
+  eos : CRes.eos ∈ s.cres → s.stopCalled = true ∨ Drained s
+  noOld : s.cp ≠ .ldClosedOld
+
+/-- once the source is closed nobody holds (or can take) the producer lock -/
+theorem closed_no_holder (s : St) (hL : LInv s) (hc : s.closed = true) (i : Nat) : hasHandle (s.pp i) = false := by
+  have := hL.closedNoLive hc
+  cases h : hasHandle (s.pp i) with
+  | false => rfl
+  | true => have := (hL.liveIff i).2 h; simp_all
+
+theorem popStep_le {r pu p} (h : RingInv r pu (some p)) (hw : NoWrap r) :
+    (popStep r p).1.hcount ≤ (popStep r p).1.tcount := by
+  obtain ⟨k1, k2, k3⟩ := popStep_inv h hw
+  cases hout : (popStep r p).2 with
+  | cont p' => exact (k1 p' hout).le1
+  | empty => exact (k2 hout).1.le1
+  | done x => exact (k3 x hout).1.le1
+
+theorem isEmpty_drained (s : St) (hT : TInv s) (he : s.ring.isEmpty = true) : s.ring.hcount = s.ring.tcount := by
+  have h := hT.ring
+  have : s.ring.head = s.ring.tail := by simpa [Ring.isEmpty] using he
+  rw [h.headEq, h.tailEq] at this
+  exact (wrapped_eq_iff h.le1 (by have := h.le2; have := h.capLt; omega)).1 this
+
+theorem stepP_EInv_none (s : St) (i : Nat) (op : Option POp)  (hpc : s.pp i = .none )
+    (hT : TInv s) (h : EInv s) : EInv (stepP s i op) := by
+  obtain ⟨e1, e2, e3, e4, e5, e6, e7⟩ := h
+  have hp : s.v.plock = true := by rw [hT.l.var]; rfl
+  have hnh := closed_no_holder s hT.l
+  simp only [stepP, hpc, startP, St.endSample, St.beginSample, St.setP, hp, if_true]
+  repeat' split
+  all_goals first
+    | exact ⟨e1, e2, e3, e4, e5, e6, e7⟩
+    | (refine ⟨?_, ?_, ?_, ?_, ?_, ?_, ?_⟩ <;> grind [Drained, upd, holdsPush, holdsPopP, holdsPopC, hasHandle, PopperOk, PusherOk])
+
+theorem stepP_EInv_reserved (s : St) (i : Nat) (op : Option POp)  (hpc : s.pp i = .reserved )
+    (hT : TInv s) (h : EInv s) : EInv (stepP s i op) := by
+  obtain ⟨e1, e2, e3, e4, e5, e6, e7⟩ := h
+  have hp : s.v.plock = true := by rw [hT.l.var]; rfl
+  have hnh := closed_no_holder s hT.l
+  simp only [stepP, hpc, startP, St.endSample, St.beginSample, St.setP, hp, if_true]
+  repeat' split
+  all_goals first
+    | exact ⟨e1, e2, e3, e4, e5, e6, e7⟩
+    | (refine ⟨?_, ?_, ?_, ?_, ?_, ?_, ?_⟩ <;> grind [Drained, upd, holdsPush, holdsPopP, holdsPopC, hasHandle, PopperOk, PusherOk])
+
+theorem stepP_EInv_gone (s : St) (i : Nat) (op : Option POp)  (hpc : s.pp i = .gone )
+    (hT : TInv s) (h : EInv s) : EInv (stepP s i op) := by
+  obtain ⟨e1, e2, e3, e4, e5, e6, e7⟩ := h
+  have hp : s.v.plock = true := by rw [hT.l.var]; rfl
+  have hnh := closed_no_holder s hT.l
+  simp only [stepP, hpc, startP, St.endSample, St.beginSample, St.setP, hp, if_true]
+  repeat' split
+  all_goals first
+    | exact ⟨e1, e2, e3, e4, e5, e6, e7⟩
+    | (refine ⟨?_, ?_, ?_, ?_, ?_, ?_, ?_⟩ <;> grind [Drained, upd, holdsPush, holdsPopP, holdsPopC, hasHandle, PopperOk, PusherOk])
+
+theorem stepP_EInv_idle (s : St) (i : Nat) (op : Option POp)  (hpc : s.pp i = .idle )
+    (hT : TInv s) (h : EInv s) : EInv (stepP s i op) := by
+  obtain ⟨e1, e2, e3, e4, e5, e6, e7⟩ := h
+  have hp : s.v.plock = true := by rw [hT.l.var]; rfl
+  have hnh := closed_no_holder s hT.l
+  simp only [stepP, hpc, startP, St.endSample, St.beginSample, St.setP, hp, if_true]
+  repeat' split
+  all_goals first
+    | exact ⟨e1, e2, e3, e4, e5, e6, e7⟩
+    | (refine ⟨?_, ?_, ?_, ?_, ?_, ?_, ?_⟩ <;> grind [Drained, upd, holdsPush, holdsPopP, holdsPopC, hasHandle, PopperOk, PusherOk])
+
+theorem stepP_EInv_acq (s : St) (i : Nat) (op : Option POp) (k v rest) (hpc : s.pp i = .acq k v rest)
+    (hT : TInv s) (h : EInv s) : EInv (stepP s i op) := by
+  obtain ⟨e1, e2, e3, e4, e5, e6, e7⟩ := h
+  have hp : s.v.plock = true := by rw [hT.l.var]; rfl
+  have hnh := closed_no_holder s hT.l
+  simp only [stepP, hpc, startP, St.endSample, St.beginSample, St.setP, hp, if_true]
+  repeat' split
+  all_goals first
+    | exact ⟨e1, e2, e3, e4, e5, e6, e7⟩
+    | (refine ⟨?_, ?_, ?_, ?_, ?_, ?_, ?_⟩ <;> grind [Drained, upd, holdsPush, holdsPopP, holdsPopC, hasHandle, PopperOk, PusherOk])
+
+theorem stepP_EInv_chk (s : St) (i : Nat) (op : Option POp) (k v rest) (hpc : s.pp i = .chk k v rest)
+    (hT : TInv s) (h : EInv s) : EInv (stepP s i op) := by
+  obtain ⟨e1, e2, e3, e4, e5, e6, e7⟩ := h
+  have hp : s.v.plock = true := by rw [hT.l.var]; rfl
+  have hnh := closed_no_holder s hT.l
+  simp only [stepP, hpc, startP, St.endSample, St.beginSample, St.setP, hp, if_true]
+  repeat' split
+  all_goals first
+    | exact ⟨e1, e2, e3, e4, e5, e6, e7⟩
+    | (refine ⟨?_, ?_, ?_, ?_, ?_, ?_, ?_⟩ <;> grind [Drained, upd, holdsPush, holdsPopP, holdsPopC, hasHandle, PopperOk, PusherOk])
+
+theorem stepP_EInv_push (s : St) (i : Nat) (op : Option POp) (c v rest p) (hpc : s.pp i = .push c v rest p)
+    (hT : TInv s) (h : EInv s) : EInv (stepP s i op) := by
+  obtain ⟨e1, e2, e3, e4, e5, e6, e7⟩ := h
+  have hp : s.v.plock = true := by rw [hT.l.var]; rfl
+  have hnh := closed_no_holder s hT.l
+  have hfr := pushStep_frame s.ring (i, v) p
+  simp only [stepP, hpc, startP, St.endSample, St.beginSample, St.setP, hp, if_true]
+  repeat' split
+  all_goals first
+    | exact ⟨e1, e2, e3, e4, e5, e6, e7⟩
+    | (refine ⟨?_, ?_, ?_, ?_, ?_, ?_, ?_⟩ <;> grind [Drained, upd, holdsPush, holdsPopP, holdsPopC, hasHandle, PopperOk, PusherOk])
+
+theorem stepP_EInv_ntf (s : St) (i : Nat) (op : Option POp) (c rest) (hpc : s.pp i = .ntf c rest)
+    (hT : TInv s) (h : EInv s) : EInv (stepP s i op) := by
+  obtain ⟨e1, e2, e3, e4, e5, e6, e7⟩ := h
+  have hp : s.v.plock = true := by rw [hT.l.var]; rfl
+  have hnh := closed_no_holder s hT.l
+  simp only [stepP, hpc, startP, St.endSample, St.beginSample, St.setP, hp, if_true]
+  repeat' split
+  all_goals first
+    | exact ⟨e1, e2, e3, e4, e5, e6, e7⟩
+    | (refine ⟨?_, ?_, ?_, ?_, ?_, ?_, ?_⟩ <;> grind [Drained, upd, holdsPush, holdsPopP, holdsPopC, hasHandle, PopperOk, PusherOk])
+
+theorem stepP_EInv_tryLock (s : St) (i : Nat) (op : Option POp) (v rest) (hpc : s.pp i = .tryLock v rest)
+    (hT : TInv s) (h : EInv s) : EInv (stepP s i op) := by
+  obtain ⟨e1, e2, e3, e4, e5, e6, e7⟩ := h
+  have hp : s.v.plock = true := by rw [hT.l.var]; rfl
+  have hnh := closed_no_holder s hT.l
+  simp only [stepP, hpc, startP, St.endSample, St.beginSample, St.setP, hp, if_true]
+  repeat' split
+  all_goals first
+    | exact ⟨e1, e2, e3, e4, e5, e6, e7⟩
+    | (refine ⟨?_, ?_, ?_, ?_, ?_, ?_, ?_⟩ <;> grind [Drained, upd, holdsPush, holdsPopP, holdsPopC, hasHandle, PopperOk, PusherOk])
+
+theorem stepP_EInv_pop (s : St) (i : Nat) (op : Option POp) (v rest p) (hpc : s.pp i = .pop v rest p)
+    (hT : TInv s) (h : EInv s) : EInv (stepP s i op) := by
+  obtain ⟨e1, e2, e3, e4, e5, e6, e7⟩ := h
+  have hp : s.v.plock = true := by rw [hT.l.var]; rfl
+  have hnh := closed_no_holder s hT.l
+  have hpl : s.plock = some i := (hT.l.plockIff i).1 (by simp [hpc, holdsPush])
+  have hpo : s.poplock = some (.prod i) := (hT.l.poplockP i).1 (by simp [hpc, holdsPopP])
+  have hview : s.poView = some p := by simp [St.poView, hpo, hpc, popViewP]
+  have hring := hT.ring
+  rw [hview] at hring
+  have hfr := popStep_frame s.ring p
+  simp only [stepP, hpc, startP, St.endSample, St.beginSample, St.setP, hp, if_true]
+  repeat' split
+  all_goals first
+    | exact ⟨e1, e2, e3, e4, e5, e6, e7⟩
+    | (refine ⟨?_, ?_, ?_, ?_, ?_, ?_, ?_⟩ <;> grind [Drained, upd, holdsPush, holdsPopP, holdsPopC, hasHandle, PopperOk, PusherOk])
+
+theorem stepP_EInv_clone (s : St) (i : Nat) (op : Option POp) (j') (hpc : s.pp i = .clone j')
+    (hT : TInv s) (h : EInv s) : EInv (stepP s i op) := by
+  obtain ⟨e1, e2, e3, e4, e5, e6, e7⟩ := h
+  have hp : s.v.plock = true := by rw [hT.l.var]; rfl
+  have hnh := closed_no_holder s hT.l
+  simp only [stepP, hpc, startP, St.endSample, St.beginSample, St.setP, hp, if_true]
+  repeat' split
+  all_goals first
+    | exact ⟨e1, e2, e3, e4, e5, e6, e7⟩
+    | (refine ⟨?_, ?_, ?_, ?_, ?_, ?_, ?_⟩ <;> grind [Drained, upd, holdsPush, holdsPopP, holdsPopC, hasHandle, PopperOk, PusherOk])
+
+theorem stepP_EInv_fetchSub (s : St) (i : Nat) (op : Option POp)  (hpc : s.pp i = .fetchSub )
+    (hT : TInv s) (h : EInv s) : EInv (stepP s i op) := by
+  obtain ⟨e1, e2, e3, e4, e5, e6, e7⟩ := h
+  have hp : s.v.plock = true := by rw [hT.l.var]; rfl
+  have hnh := closed_no_holder s hT.l
+  simp only [stepP, hpc, startP, St.endSample, St.beginSample, St.setP, hp, if_true]
+  repeat' split
+  all_goals first
+    | exact ⟨e1, e2, e3, e4, e5, e6, e7⟩
+    | (refine ⟨?_, ?_, ?_, ?_, ?_, ?_, ?_⟩ <;> grind [Drained, upd, holdsPush, holdsPopP, holdsPopC, hasHandle, PopperOk, PusherOk])
+
+theorem stepP_EInv_stClosed (s : St) (i : Nat) (op : Option POp)  (hpc : s.pp i = .stClosed )
+    (hT : TInv s) (h : EInv s) : EInv (stepP s i op) := by
+  obtain ⟨e1, e2, e3, e4, e5, e6, e7⟩ := h
+  have hp : s.v.plock = true := by rw [hT.l.var]; rfl
+  have hnh := closed_no_holder s hT.l
+  simp only [stepP, hpc, startP, St.endSample, St.beginSample, St.setP, hp, if_true]
+  repeat' split
+  all_goals first
+    | exact ⟨e1, e2, e3, e4, e5, e6, e7⟩
+    | (refine ⟨?_, ?_, ?_, ?_, ?_, ?_, ?_⟩ <;> grind [Drained, upd, holdsPush, holdsPopP, holdsPopC, hasHandle, PopperOk, PusherOk])
+
+theorem stepP_EInv_ntfW (s : St) (i : Nat) (op : Option POp)  (hpc : s.pp i = .ntfW )
+    (hT : TInv s) (h : EInv s) : EInv (stepP s i op) := by
+  obtain ⟨e1, e2, e3, e4, e5, e6, e7⟩ := h
+  have hp : s.v.plock = true := by rw [hT.l.var]; rfl
+  have hnh := closed_no_holder s hT.l
+  simp only [stepP, hpc, startP, St.endSample, St.beginSample, St.setP, hp, if_true]
+  repeat' split
+  all_goals first
+    | exact ⟨e1, e2, e3, e4, e5, e6, e7⟩
+    | (refine ⟨?_, ?_, ?_, ?_, ?_, ?_, ?_⟩ <;> grind [Drained, upd, holdsPush, holdsPopP, holdsPopC, hasHandle, PopperOk, PusherOk])
+
+theorem stepC_EInv_idle (s : St) (start : Bool)  (hpc : s.cp = .idle )
+    (hT : TInv s) (hw : NoWrap s.ring) (h : EInv s) : EInv (stepC s start) := by
+  obtain ⟨e1, e2, e3, e4, e5, e6, e7⟩ := h
+  have hr : s.v.rfix = true := by rw [hT.l.var]; rfl
+  simp only [stepC, hpc, St.loopTop, St.retC, hr, if_true]
+  repeat' split
+  all_goals first
+    | exact ⟨e1, e2, e3, e4, e5, e6, e7⟩
+    | (refine ⟨?_, ?_, ?_, ?_, ?_, ?_, ?_⟩ <;> grind [Drained, upd, holdsPush, holdsPopP, holdsPopC, hasHandle, PopperOk, PusherOk])
+
+theorem stepC_EInv_mkNtf (s : St) (start : Bool)  (hpc : s.cp = .mkNtf )
+    (hT : TInv s) (hw : NoWrap s.ring) (h : EInv s) : EInv (stepC s start) := by
+  obtain ⟨e1, e2, e3, e4, e5, e6, e7⟩ := h
+  have hr : s.v.rfix = true := by rw [hT.l.var]; rfl
+  simp only [stepC, hpc, St.loopTop, St.retC, hr, if_true]
+  repeat' split
+  all_goals first
+    | exact ⟨e1, e2, e3, e4, e5, e6, e7⟩
+    | (refine ⟨?_, ?_, ?_, ?_, ?_, ?_, ?_⟩ <;> grind [Drained, upd, holdsPush, holdsPopP, holdsPopC, hasHandle, PopperOk, PusherOk])
+
+theorem stepC_EInv_ldEnded (s : St) (start : Bool) (g) (hpc : s.cp = .ldEnded g)
+    (hT : TInv s) (hw : NoWrap s.ring) (h : EInv s) : EInv (stepC s start) := by
+  obtain ⟨e1, e2, e3, e4, e5, e6, e7⟩ := h
+  have hr : s.v.rfix = true := by rw [hT.l.var]; rfl
+  simp only [stepC, hpc, St.loopTop, St.retC, hr, if_true]
+  repeat' split
+  all_goals first
+    | exact ⟨e1, e2, e3, e4, e5, e6, e7⟩
+    | (refine ⟨?_, ?_, ?_, ?_, ?_, ?_, ?_⟩ <;> grind [Drained, upd, holdsPush, holdsPopP, holdsPopC, hasHandle, PopperOk, PusherOk])
+
+theorem stepC_EInv_lock (s : St) (start : Bool) (g) (hpc : s.cp = .lock g)
+    (hT : TInv s) (hw : NoWrap s.ring) (h : EInv s) : EInv (stepC s start) := by
+  obtain ⟨e1, e2, e3, e4, e5, e6, e7⟩ := h
+  have hr : s.v.rfix = true := by rw [hT.l.var]; rfl
+  simp only [stepC, hpc, St.loopTop, St.retC, hr, if_true]
+  repeat' split
+  all_goals first
+    | exact ⟨e1, e2, e3, e4, e5, e6, e7⟩
+    | (refine ⟨?_, ?_, ?_, ?_, ?_, ?_, ?_⟩ <;> grind [Drained, upd, holdsPush, holdsPopP, holdsPopC, hasHandle, PopperOk, PusherOk])
+
+theorem stepC_EInv_ldClosed1 (s : St) (start : Bool) (g) (hpc : s.cp = .ldClosed1 g)
+    (hT : TInv s) (hw : NoWrap s.ring) (h : EInv s) : EInv (stepC s start) := by
+  obtain ⟨e1, e2, e3, e4, e5, e6, e7⟩ := h
+  have hr : s.v.rfix = true := by rw [hT.l.var]; rfl
+  simp only [stepC, hpc, St.loopTop, St.retC, hr, if_true]
+  repeat' split
+  all_goals first
+    | exact ⟨e1, e2, e3, e4, e5, e6, e7⟩
+    | (refine ⟨?_, ?_, ?_, ?_, ?_, ?_, ?_⟩ <;> grind [Drained, upd, holdsPush, holdsPopP, holdsPopC, hasHandle, PopperOk, PusherOk])
+
+theorem stepC_EInv_pop (s : St) (start : Bool) (g cl p) (hpc : s.cp = .pop g cl p)
+    (hT : TInv s) (hw : NoWrap s.ring) (h : EInv s) : EInv (stepC s start) := by
+  obtain ⟨e1, e2, e3, e4, e5, e6, e7⟩ := h
+  have hr : s.v.rfix = true := by rw [hT.l.var]; rfl
+  have hpo : s.poplock = some .cons := hT.l.poplockC.1 (by simp [hpc, holdsPopC])
+  have hview : s.poView = some p := by simp [St.poView, hpo, hpc, popViewC]
+  have hring := hT.ring
+  rw [hview] at hring
+  obtain ⟨k1, k2, k3⟩ := popStep_inv hring hw
+  have hfr := popStep_frame s.ring p
+  have hle := popStep_le hring hw
+  simp only [stepC, hpc, St.loopTop, St.retC, hr, if_true]
+  repeat' split
+  all_goals first
+    | exact ⟨e1, e2, e3, e4, e5, e6, e7⟩
+    | (refine ⟨?_, ?_, ?_, ?_, ?_, ?_, ?_⟩ <;> grind [Drained, upd, holdsPush, holdsPopP, holdsPopC, hasHandle, PopperOk, PusherOk])
+
+theorem stepC_EInv_ldClosedOld (s : St) (start : Bool)  (hpc : s.cp = .ldClosedOld )
+    (hT : TInv s) (hw : NoWrap s.ring) (h : EInv s) : EInv (stepC s start) := by
+  obtain ⟨e1, e2, e3, e4, e5, e6, e7⟩ := h
+  have hr : s.v.rfix = true := by rw [hT.l.var]; rfl
+  simp only [stepC, hpc, St.loopTop, St.retC, hr, if_true]
+  repeat' split
+  all_goals first
+    | exact ⟨e1, e2, e3, e4, e5, e6, e7⟩
+    | (refine ⟨?_, ?_, ?_, ?_, ?_, ?_, ?_⟩ <;> grind [Drained, upd, holdsPush, holdsPopP, holdsPopC, hasHandle, PopperOk, PusherOk])
+
+theorem stepC_EInv_stEnded (s : St) (start : Bool)  (hpc : s.cp = .stEnded )
+    (hT : TInv s) (hw : NoWrap s.ring) (h : EInv s) : EInv (stepC s start) := by
+  obtain ⟨e1, e2, e3, e4, e5, e6, e7⟩ := h
+  have hr : s.v.rfix = true := by rw [hT.l.var]; rfl
+  simp only [stepC, hpc, St.loopTop, St.retC, hr, if_true]
+  repeat' split
+  all_goals first
+    | exact ⟨e1, e2, e3, e4, e5, e6, e7⟩
+    | (refine ⟨?_, ?_, ?_, ?_, ?_, ?_, ?_⟩ <;> grind [Drained, upd, holdsPush, holdsPopP, holdsPopC, hasHandle, PopperOk, PusherOk])
+
+theorem stepC_EInv_await1 (s : St) (start : Bool) (g) (hpc : s.cp = .await1 g)
+    (hT : TInv s) (hw : NoWrap s.ring) (h : EInv s) : EInv (stepC s start) := by
+  obtain ⟨e1, e2, e3, e4, e5, e6, e7⟩ := h
+  have hr : s.v.rfix = true := by rw [hT.l.var]; rfl
+  simp only [stepC, hpc, St.loopTop, St.retC, hr, if_true]
+  repeat' split
+  all_goals first
+    | exact ⟨e1, e2, e3, e4, e5, e6, e7⟩
+    | (refine ⟨?_, ?_, ?_, ?_, ?_, ?_, ?_⟩ <;> grind [Drained, upd, holdsPush, holdsPopP, holdsPopC, hasHandle, PopperOk, PusherOk])
+
+theorem stepC_EInv_await2 (s : St) (start : Bool)  (hpc : s.cp = .await2 )
+    (hT : TInv s) (hw : NoWrap s.ring) (h : EInv s) : EInv (stepC s start) := by
+  obtain ⟨e1, e2, e3, e4, e5, e6, e7⟩ := h
+  have hr : s.v.rfix = true := by rw [hT.l.var]; rfl
+  simp only [stepC, hpc, St.loopTop, St.retC, hr, if_true]
+  repeat' split
+  all_goals first
+    | exact ⟨e1, e2, e3, e4, e5, e6, e7⟩
+    | (refine ⟨?_, ?_, ?_, ?_, ?_, ?_, ?_⟩ <;> grind [Drained, upd, holdsPush, holdsPopP, holdsPopC, hasHandle, PopperOk, PusherOk])
+
+theorem stepC_EInv_ldClosed2 (s : St) (start : Bool)  (hpc : s.cp = .ldClosed2 )
+    (hT : TInv s) (hw : NoWrap s.ring) (h : EInv s) : EInv (stepC s start) := by
+  obtain ⟨e1, e2, e3, e4, e5, e6, e7⟩ := h
+  have hr : s.v.rfix = true := by rw [hT.l.var]; rfl
+  simp only [stepC, hpc, St.loopTop, St.retC, hr, if_true]
+  repeat' split
+  all_goals first
+    | exact ⟨e1, e2, e3, e4, e5, e6, e7⟩
+    | (refine ⟨?_, ?_, ?_, ?_, ?_, ?_, ?_⟩ <;> grind [Drained, upd, holdsPush, holdsPopP, holdsPopC, hasHandle, PopperOk, PusherOk])
+
+theorem stepC_EInv_isEmpty (s : St) (start : Bool)  (hpc : s.cp = .isEmpty )
+    (hT : TInv s) (hw : NoWrap s.ring) (h : EInv s) : EInv (stepC s start) := by
+  obtain ⟨e1, e2, e3, e4, e5, e6, e7⟩ := h
+  have hr : s.v.rfix = true := by rw [hT.l.var]; rfl
+  have hie := isEmpty_drained s hT
+  simp only [stepC, hpc, St.loopTop, St.retC, hr, if_true]
+  repeat' split
+  all_goals first
+    | exact ⟨e1, e2, e3, e4, e5, e6, e7⟩
+    | (refine ⟨?_, ?_, ?_, ?_, ?_, ?_, ?_⟩ <;> grind [Drained, upd, holdsPush, holdsPopP, holdsPopC, hasHandle, PopperOk, PusherOk])
+
+theorem stepC_EInv_stEnded2 (s : St) (start : Bool)  (hpc : s.cp = .stEnded2 )
+    (hT : TInv s) (hw : NoWrap s.ring) (h : EInv s) : EInv (stepC s start) := by
+  obtain ⟨e1, e2, e3, e4, e5, e6, e7⟩ := h
+  have hr : s.v.rfix = true := by rw [hT.l.var]; rfl
+  simp only [stepC, hpc, St.loopTop, St.retC, hr, if_true]
+  repeat' split
+  all_goals first
+    | exact ⟨e1, e2, e3, e4, e5, e6, e7⟩
+    | (refine ⟨?_, ?_, ?_, ?_, ?_, ?_, ?_⟩ <;> grind [Drained, upd, holdsPush, holdsPopP, holdsPopC, hasHandle, PopperOk, PusherOk])
+
+theorem stepP_EInv (s : St) (i : Nat) (op : Option POp) (hT : TInv s) (h : EInv s) : EInv (stepP s i op) := by
+  cases hpc : s.pp i with
+  | none  => exact stepP_EInv_none s i op  hpc hT h
+  | reserved  => exact stepP_EInv_reserved s i op  hpc hT h
+  | gone  => exact stepP_EInv_gone s i op  hpc hT h
+  | idle  => exact stepP_EInv_idle s i op  hpc hT h
+  | acq k v rest => exact stepP_EInv_acq s i op k v rest hpc hT h
+  | chk k v rest => exact stepP_EInv_chk s i op k v rest hpc hT h
+  | push c v rest p => exact stepP_EInv_push s i op c v rest p hpc hT h
+  | ntf c rest => exact stepP_EInv_ntf s i op c rest hpc hT h
+  | tryLock v rest => exact stepP_EInv_tryLock s i op v rest hpc hT h
+  | pop v rest p => exact stepP_EInv_pop s i op v rest p hpc hT h
+  | clone j' => exact stepP_EInv_clone s i op j' hpc hT h
+  | fetchSub  => exact stepP_EInv_fetchSub s i op  hpc hT h
+  | stClosed  => exact stepP_EInv_stClosed s i op  hpc hT h
+  | ntfW  => exact stepP_EInv_ntfW s i op  hpc hT h
+
+theorem stepC_EInv (s : St) (start : Bool) (hT : TInv s) (hw : NoWrap s.ring) (h : EInv s) : EInv (stepC s start) := by
+  cases hpc : s.cp with
+  | idle  => exact stepC_EInv_idle s start  hpc hT hw h
+  | mkNtf  => exact stepC_EInv_mkNtf s start  hpc hT hw h
+  | ldEnded g => exact stepC_EInv_ldEnded s start g hpc hT hw h
+  | lock g => exact stepC_EInv_lock s start g hpc hT hw h
+  | ldClosed1 g => exact stepC_EInv_ldClosed1 s start g hpc hT hw h
+  | pop g cl p => exact stepC_EInv_pop s start g cl p hpc hT hw h
+  | ldClosedOld  => exact stepC_EInv_ldClosedOld s start  hpc hT hw h
+  | stEnded  => exact stepC_EInv_stEnded s start  hpc hT hw h
+  | await1 g => exact stepC_EInv_await1 s start g hpc hT hw h
+  | await2  => exact stepC_EInv_await2 s start  hpc hT hw h
+  | ldClosed2  => exact stepC_EInv_ldClosed2 s start  hpc hT hw h
+  | isEmpty  => exact stepC_EInv_isEmpty s start  hpc hT hw h
+  | stEnded2  => exact stepC_EInv_stEnded2 s start  hpc hT hw h
+
+theorem stepS_EInv (s : St) (start : Bool) (h : EInv s) : EInv (stepS s start) := by
+  obtain ⟨e1, e2, e3, e4, e5, e6, e7⟩ := h
+  simp only [stepS]
+  repeat' split
+  all_goals first
+    | exact ⟨e1, e2, e3, e4, e5, e6, e7⟩
+    | (refine ⟨?_, ?_, ?_, ?_, ?_, ?_, ?_⟩ <;> grind [Drained])
+
+theorem EInv.init (cap W : Nat) : EInv (St.init Variant.cur cap W 0) := by
+  refine ⟨?_, ?_, ?_, ?_, ?_, ?_, ?_⟩ <;> simp [St.init]
+
+/-- everything together -/
+structure FInv (s : St) : Prop where
+  t : TInv s
+  e : EInv s
+
+theorem step_FInv (s : St) (l : Label) (h : FInv s) (hw : NoWrap s.ring) : FInv (step s l) := by
+  refine ⟨step_TInv s l h.t hw, ?_⟩
+  cases l with
+  | prod i op => exact stepP_EInv s i op h.t h.e
+  | cons st => exact stepC_EInv s st h.t hw h.e
+  | stop st => exact stepS_EInv s st h.e
+
+theorem FInv.init (cap W : Nat) (h0 : 0 < cap) (h1 : cap < W) : FInv (St.init Variant.cur cap W 0) :=
+  ⟨TInv.init cap W h0 h1, EInv.init cap W⟩
+
+theorem run_FInv (s : St) (ls : List Label) (h : FInv s) (hw : NoWrap (run s ls).ring) : FInv (run s ls) :=
+  run_induct FInv step_FInv s ls h hw
+
 end RtcModel.SpscTrack
